@@ -38,6 +38,8 @@ def main():
     # patches are applied in a worktree of our own (the agents may still be working in theirs)
     src_wt = wt
     wt = os.environ.get("SEED_WT", "/tmp/seedtest_wt")
+    if not os.path.isdir(wt):
+        sh("git -C /repo worktree add -q --detach %s main" % wt)  # scratch worktree: remove it when done (see seeded/README.md)
     sh("git -C %s checkout -q -- . ; git -C %s checkout -q --detach main" % (wt, wt))
     meta = json.load(open(os.path.join(out, var + "_meta.json")))
     pid = meta["property"]
